@@ -311,7 +311,9 @@ RowClauses4(S, A, R, n, ph, r, sup, sel, kids, tol, ta, T) ==
      Cl("C02.Thermal.Rise", ~src /\ hasT, EqX(DJ(r.raw.trise), Rt(S, n) \otimes heat, Rt(S, n) \otimes heat, DZero)),
      Cl("C02.Thermal.Peak", ~src /\ hasT, EqX(DJ(r.raw.tpeak), ta \oplus DJ(r.raw.trise), DAbs(ta) \oplus DAbs(DJ(r.raw.trise)), DZero)),
      Cl("C02.Thermal.Shown", ~src /\ ~hasT, DIsZero(Rt(S, n) \otimes heat)),
-     \* ---- C03 : physical
+     \* ---- C03 : the returned table is a converged state for the REQUESTED tolerances, and physical
+     Cl("C03.Residual.Vout", TRUE, VoutLaw(S, n, ph, sel, r.vin, r.iout, r.vout, tol)),
+     Cl("C03.Residual.Iin",  TRUE, IinLaw(S, n, ph, sel, r.vin, r.iout, r.iin, tol)),
      Cl("C03.PassiveNoGain", Passive(S, n), PassiveOK(S, n, r.vin, r.vout, tol)),
      Cl("C03.SourceNoGain",  src /\ OutLive(S, n, ph), SourceOK(S, n, r.vout, tol)),
      \* ---- C04 : dead rails and sleeping components
@@ -410,8 +412,29 @@ SliceClauses(c, A) ==
                /\ Of(T, A.phase) = Of(U, A.phase)
                /\ Cardinality(Of(T, A.phase)) = Len(T.rows)) >>, "", A.phase)
 
+\* C03 completeness: a system built around a designed steady state with modest series drops must be
+\* solved, and the solution must be the designed state.  The designed state is first held to the laws
+\* itself (a wrong derivation in the driver is a driver error, not a finding).
+DesignUnits == DInt(20)
+NearD(a, b, tol) == DLeq(DAbs(a \ominus b), DesignUnits \otimes (Atol \oplus (tol \otimes DMax(DAbs(a), DAbs(b)))))
+DesignClauses(c, S, A) ==
+  LET dg  == c.design
+      N   == {dg[i].name : i \in DOMAIN dg}
+      Dn(n) == dg[CHOOSE i \in DOMAIN dg : dg[i].name = n]
+      tol == DMax(DJ(A.vtol), DJ(A.itol))
+      T   == c.table
+      lawsOK == \A n \in N :
+                  /\ VoutLaw(S, n, "", 1, DJ(Dn(n).vin), DJ(Dn(n).iout), DJ(Dn(n).vout), tol)
+                  /\ IinLaw(S, n, "", 1, DJ(Dn(n).vin), DJ(Dn(n).iout), DJ(Dn(n).iin), tol)
+      found  == \A n \in N :
+                  LET r == Decode(T, n, "") IN
+                  r.ok /\ NearD(r.vout, DJ(Dn(n).vout), tol) /\ NearD(r.iin, DJ(Dn(n).iin), tol)
+  IN Tag(<< Cl("driver.DesignedOK", TRUE, lawsOK),
+            Cl("C03.FindsModest", lawsOK, c.outcome = "ok" /\ found) >>, "", "")
+
 SolveClauses1(c, S, A) ==
-  IF A.phase # "" /\ A.phase \notin SeqRange(PhaseNames(S))
+  IF c.has_design THEN DesignClauses(c, S, A)
+  ELSE IF A.phase # "" /\ A.phase \notin SeqRange(PhaseNames(S))
   THEN Tag(<< Cl("C06.UnknownPhase", TRUE, c.outcome = "exc" /\ c.exc = "ValueError") >>, "", A.phase)
   ELSE IF c.outcome = "ok" THEN SolveClauses2(c, S, A, c.table, PhaseList(S, A)) \o SliceClauses(c, A)
   ELSE Tag(<< Cl("C03.ExcClass", TRUE, c.exc \in {"RuntimeError", "ValueError"}) >>, "", "")
@@ -433,6 +456,7 @@ AllClauseNames ==
    "C07.Total.Loss", "C07.Total.Eff", "C07.Total.Iout", "C07.Energy.Total", "C07.Subsystem.VIP",
    "C07.Subsystem.Loss", "C07.Energy.Subsystem", "C07.Average.Row", "C07.Average.Power",
    "C07.Average.Loss", "C07.Average.Eff", "C07.Average.Iout", "C07.Energy.Average", "C07.Energy.Sum",
+   "driver.DesignedOK", "C03.FindsModest", "C03.Residual.Vout", "C03.Residual.Iin",
    "C06.PhaseValue", "C06.SleepValue", "C06.ActiveList", "C06.NoConfig", "C06.SinglePhaseEqualsSlice",
    "C06.UnknownPhase", "C08.NoException", "C08.NoRails", "C08.None", "C08.RailSet", "C08.Voltage", "C08.Sums", "C08.Warnings"}
 
